@@ -373,7 +373,7 @@ TRAVERSAL_ERRORS = ("Discontinuous path", "Unfinished traverse path", "Picked a 
                     "There can be only exactly one starting node")
 
 
-def check_C02(history, expected_tests=None):
+def check_C02(history, expected_tests=None, expected_combos=None):
     out = []
     scen = history["scenario"]
     epochs = scen.get("epochs") or [{}]
@@ -433,6 +433,14 @@ def check_C02(history, expected_tests=None):
                     if not any(n.startswith(flat + ".") for n in started_names):
                         out.append(V("C02", "not-executed", f"selected test {flat} was never executed",
                                      epoch=epoch, test=flat))
+                for flat, tokens in (expected_combos or []):
+                    if flat in found_present:
+                        continue
+                    if not any(n.startswith(flat + ".") and all(f".{vm}.{tok}." in n for vm, tok in tokens.items())
+                               for n in started_names):
+                        out.append(V("C02", "variant-not-executed",
+                                     f"selected test {flat} was never executed for a compatible vm variant combination",
+                                     epoch=epoch, test=flat, variants=tokens))
     return dedup(out)
 
 
